@@ -41,6 +41,7 @@ inductive CE
   | counted (p : PE)    -- `p->ref` (String, Variant) / `p` (RefCount::Ptr: non-null)
   | isStatic (p : PE)   -- `p == &emptyData`
   | notSelf             -- `&other != this`
+  | samePtr (p q : PE)  -- `p == q`: both designate the same block
   -- the plain read of the counter that guards the in-place path (the model's `readRef`):
   | sole                -- `data->ref == 1 [&& minCapacity <= data->capacity]`                 (String)
   | notSole             -- `data->type != T || data->ref > 1`                                   (Variant, Xml::Variant)
@@ -52,7 +53,7 @@ inductive Stmt
   | skip
   | seq (a b : Stmt)
   | ite (c : CE) (t e : Stmt)
-  | bind (p : PE)                 -- `T* x = p;`  (x = the next local)
+  | bind (i : Nat) (p : PE)       -- `T* x = p;`  (x = local number i)
   | inc (p : PE)                  -- `Atomic::increment(p->ref);`
   | release (p : PE)              -- `if(p->ref && Atomic::decrement(p->ref) == 0) { [destructor of the content;] delete … p; }`
   | store (dst src : PE)          -- `dst = src;`
@@ -61,7 +62,7 @@ inductive Stmt
   | writeInPlace                  -- the guarded modification of the own payload: `data->len = …`, `*(T*)(data + 1) = other`,
                                   -- `return *(T*)(data + 1)` (a mutable reference through which the caller writes)
   -- the second field of RefCount::Ptr (`obj`, not counted): only checked to mirror the counted field
-  | bindO (p : PE)
+  | bindO (i : Nat) (p : PE)
   | storeO (dst src : PE)
 deriving Repr
 
@@ -79,11 +80,12 @@ deriving DecidableEq, Repr
 structure Env where
   self : Den
   other : Den
-  locs : List Den := []
+  locs : List Den := List.replicate 8 .bad
   inl : Option (Nat × List Nat) := none     -- content of `_data` (tag, value) once it was filled
   acts : List Act := []
   ok : Bool := true
   stopped : Bool := false                   -- `semPre`: the body has reached its plain read
+  lastInc : Option (List Act × Nat) := none -- the last step was an increment through a local: (steps before it, source slot)
 
 /-- parameters of one interpretation: the state in which the call starts, the thread, the slots of `*this` and of the
     argument, the release list of a slot (`dec; free`, or the Ptr release with the destructor of the pointee), the
@@ -129,6 +131,10 @@ def evalC (c : Ctx) (e : Env) : CE → Bool
   | .counted p => isBlkDen c (evalP e p)
   | .isStatic p => isStaticDen c (evalP e p)
   | .notSelf => c.d != c.s
+  | .samePtr p q =>
+    (match evalP e p, evalP e q with
+      | .slot v, .slot w | .slot v, .alias w | .alias v, .slot w | .alias v, .alias w => c.st.slots v == c.st.slots w
+      | _, _ => false)
   | .sole => c.writing
   | .notSole => !c.writing
   | .wrongType => !c.writing && !c.typeOk
@@ -145,7 +151,7 @@ def setP (e : Env) (p : PE) (x : Den) : Env :=
   | .loc i => { e with locs := e.locs.set i x }
   | _ => { e with ok := false }
 
-def emit (e : Env) (a : List Act) : Env := { e with acts := e.acts ++ a }
+def emit (e : Env) (a : List Act) : Env := { e with acts := e.acts ++ a, lastInc := none }
 def fail (e : Env) : Env := { e with ok := false }
 
 /-- the inline value seen through a pointer (`*other.data` when it is not counted) -/
@@ -166,14 +172,14 @@ def exec (c : Ctx) : Stmt → Env → Env
     match e.self with
     | .slot v => if c.mode = 2 ∧ c.writing = true ∧ v = c.d then emit e c.wacts else fail e
     | _ => fail e
-  | .bind p, e =>
+  | .bind i p, e =>
     match evalP e p with
-    | .slot v => { e with locs := e.locs ++ [.alias v] }
-    | x => { e with locs := e.locs ++ [x] }
+    | .slot v => { e with locs := e.locs.set i (.alias v) }
+    | x => { e with locs := e.locs.set i x }
   | .inc p, e =>
     match p, evalP e p with
     | .self, .alias v => emit (setP e .self (.slot c.d)) [.inc c.d v]          -- data = other.data; increment(data->ref)
-    | .loc i, .alias v => emit (setP e (.loc i) (.held (tmpT c.tid))) [.inc (tmpT c.tid) v]
+    | .loc i, .alias v => { emit (setP e (.loc i) (.held (tmpT c.tid))) [.inc (tmpT c.tid) v] with lastInc := some (e.acts, v) }
     | _, _ => fail e
   | .release p, e =>
     match p, evalP e p with
@@ -184,7 +190,11 @@ def exec (c : Ctx) : Stmt → Env → Env
     | _, _ => fail e
   | .store dst src, e =>
     match dst, evalP e src with
-    | .self, .held t => emit (setP e .self (.slot c.d)) [.move c.d t]
+    | .self, .held t =>
+      -- `increment(x->ref); data = x;` with nothing in between is the model's `inc d s` (the reference never sits in a scratch slot)
+      (match e.lastInc with
+        | some (before, v) => { setP e .self (.slot c.d) with acts := before ++ [.inc c.d v], lastInc := none }
+        | none => emit (setP e .self (.slot c.d)) [.move c.d t])
     | .self, .fresh t => emit (setP e .self (.slot c.d)) [.move c.d t]
     | .self, .static_ => setP e .self (.slot c.d)                               -- the pointer is forgotten (`clr`: no step)
     | .self, .inline_ => setP e .self .inline_
@@ -205,7 +215,7 @@ def exec (c : Ctx) : Stmt → Env → Env
         | some (tag, val) => emit (setP e .self (.slot c.d)) [.setInl c.d tag val]
         | none => setP e .self (.slot c.d))                                      -- a copy of the null descriptor
     | _ => fail e
-  | .bindO _, e => { e with locs := e.locs ++ [.bad] }      -- locals are numbered over both fields
+  | .bindO _ _, e => e                                      -- locals are numbered over both fields
   | .storeO _ _, e => e
 
 /-- the always-rejected step (`move d d`): an interpretation that left the understood patterns -/
@@ -233,14 +243,15 @@ def storesOf (objField : Bool) : Stmt → List PE × List (PE × PE) → List PE
   | .skip, x => x
   | .seq a b, x => storesOf objField b (storesOf objField a x)
   | .ite _ t f, x => storesOf objField f (storesOf objField t x)
-  | .bind p, (l, r) => (l ++ [p], r)              -- locals are numbered over both fields
-  | .bindO p, (l, r) => (l ++ [p], r)
+  | .bind i p, (l, r) => (l.set i p, r)           -- locals are numbered over both fields
+  | .bindO i p, (l, r) => (l.set i p, r)
   | .store dst src, (l, r) =>
     if objField then (l, r) else (l, r ++ [(dst, match src with | .loc i => l.getD i .static_ | p => p)])
   | .storeO dst src, (l, r) =>
     if objField then (l, r ++ [(dst, match src with | .loc i => l.getD i .static_ | p => p)]) else (l, r)
   | _, x => x
 
-def fieldsMirror (body : Stmt) : Bool := (storesOf false body ([], [])).2 == (storesOf true body ([], [])).2
+def fieldsMirror (body : Stmt) : Bool :=
+  (storesOf false body (List.replicate 8 .static_, [])).2 == (storesOf true body (List.replicate 8 .static_, [])).2
 
 end Nstd.Rc.Ir
